@@ -3,6 +3,7 @@ package main
 
 import (
 	"fmt"
+	"runtime"
 
 	"github.com/iotaledger/hive.go/runtime/workerpool"
 
@@ -248,6 +249,31 @@ func scenarios() []*sched.Scenario {
 		p.PendingTasksCounter.WaitIsZero()
 		if b.runs[1]+b.runs[2]+b.runs[3] != 3 {
 			vrt.Fail("task|accepted-not-run", "the pending counter is zero but only %d of 3 submitted tasks ran", b.runs[1]+b.runs[2]+b.runs[3])
+		}
+	}})
+	// (F4) more workers than 2 x NumCPU, all of them busy when Shutdown is called, each task touching the pool again
+	// afterwards: Shutdown must be able to signal every worker without waiting for any of them
+	out = append(out, &sched.Scenario{Name: "shutdown-with-many-busy-workers", QuickMaxBound: 1, MaxBound: 1, Run: func() {
+		n := 2*runtime.NumCPU() + 1
+		p := workerpool.New("p", workerpool.WithWorkerCount(n))
+		p.Start()
+		gate := make(chan struct{})
+		ran := 0
+		for i := 0; i < n; i++ {
+			p.Submit(func() {
+				vrt.Recv(gate)
+				_ = p.IsRunning()
+				ran++
+			})
+		}
+		vrt.Settle() // every worker is inside a task
+		sd := vrt.Spawn(func() { p.Shutdown() })
+		vrt.Settle() // Shutdown has got as far as it can while the workers are busy
+		vrt.Close(gate)
+		sd.Join()
+		p.ShutdownComplete.Wait()
+		if ran != n {
+			vrt.Fail("task|accepted-not-run", "%d of %d accepted tasks ran", ran, n)
 		}
 	}})
 	// (G) nested groups: every level must see the pools below it (root -> mid -> leaf -> pool)
